@@ -29,7 +29,8 @@ DecOk(r) ==
                /\ tpos' = IF r.res = "frame" THEN S.pos ELSE tpos
                /\ tk' = IF r.res = "frame" THEN S.k ELSE tk
           ELSE /\ r.res = S.res /\ dead' = FALSE
-               /\ S.res = "frame" => r.p = frames[S.k].p      \* decoded value = the value sent
+               \* decoded value = the value sent (values are not logged for streams with a corrupted frame)
+               /\ (S.res = "frame" /\ mode # "body") => r.p = frames[S.k].p
                /\ tpos' = S.pos /\ tk' = S.k
 
 Step ==
